@@ -1,79 +1,231 @@
-"""Sidecar contract for esr/generation/generator.py::string_to_node (C18): which of its (up to) four readings of a formula it hands back.
+"""Sidecar contracts for esr/generation/generator.py::string_to_node (C18): which of its (up to) four readings of a formula it hands back.
 
 string_to_node parses the string in four ways (kernS on / off x evaluate on / off), turns each reading into a DecoratedNode, counts its nodes and returns the reading
-with the fewest nodes.  The parsing and the tree walk are sympy code (bounded part of C18); under contract is the SELECTION:
+with the fewest nodes.  The parsing and the tree walk are sympy code (bounded part of C18); under contract is the bookkeeping, modularly:
 
-  * the triple returned is (expr[i], nodes[i], int(c[i])) for ONE index i: expression, tree and complexity belong to the same reading;
-  * that reading did not raise (its count is a number: a reading whose conversion raised anywhere is never returned), and the complexity returned is the node count
-    the returned tree reported (count_nodes of that very node -- C18: "complexity = number of labels" then rests on DecoratedNode.count_nodes, bounded);
-  * no admissible reading has fewer nodes; with check_ops, if some reading uses basis operators only, the returned one does (readings with foreign operators are excluded);
-  * with allow_eval=False reading 0 is never returned.
-
-Every call of string_to_expr / DecoratedNode / count_nodes / check_operators / evalf may raise (engine option may_raise_calls): all 5^4 outcome combinations are explored."""
+  block k (k = 0..3; region: `i = k` and the `try` statement that follows):  afterwards slot k is CONSISTENT --
+        either c[k] is NaN (the reading raised somewhere: any of string_to_expr / evalf / DecoratedNode / count_nodes / check_operators may raise), or
+        expr[k] is reading k (after evalf if requested), nodes[k] = DecoratedNode(expr[k]), c[k] = nodes[k].count_nodes(), and (with check_ops) all_in_basis[k] =
+        check_operators(nodes[k]); the other slots are untouched;
+  tail (region: from `if check_ops and any(all_in_basis)` to the return), given four consistent slots and at least one reading that converted:
+        the triple returned is (expr[j], nodes[j], int(c[j])) for ONE slot j that did not raise -- expression, tree and complexity belong to the same reading, the
+        complexity is the node count that very tree reported; no admissible slot has a smaller count; with check_ops, if some slot uses basis operators only the returned
+        one does.
+C18's "complexity = number of labels" then rests on DecoratedNode.count_nodes = len(to_list) (bounded)."""
+import ast
 import z3
 from pyvc.engine import Contract
 from pyvc.values import T, VInt, VFloat, VBool, VFn, VRef, VTuple, VNone, VMaybeNone, HSeq, Fn, Unsupported, fresh_name, as_float
 
 I = z3.IntSort()
-EXPR = z3.Function("reading.expr", I, z3.BoolSort(), Fn)        # (reading, evalf applied)
-NODE = z3.Function("node.of", Fn, Fn)                           # DecoratedNode(expr, basis)
-COUNT = z3.Function("node.count", Fn, I)                        # node.count_nodes(basis)
-INB = z3.Function("node.in_basis", Fn, z3.BoolSort())           # check_operators(node, basis)
+READ = z3.Function("reading.expr", I, Fn)                     # what string_to_expr returned in the block of slot k
+EVALF = z3.Function("evalf", Fn, Fn)
+NODE = z3.Function("node.of", Fn, Fn)                         # DecoratedNode(expr, basis)
+COUNT = z3.Function("node.count", Fn, I)                      # node.count_nodes(basis)
+INB = z3.Function("node.in_basis", Fn, z3.BoolSort())         # check_operators(node, basis)
+E0 = z3.Function("slot.expr", I, Fn)                          # entry state of the four slots
+N0 = z3.Function("slot.node", I, Fn)
+ENONE = z3.Function("slot.expr.isnone", I, z3.BoolSort())
+NNONE = z3.Function("slot.node.isnone", I, z3.BoolSort())
+C0NAN = z3.Function("slot.c.isnan", I, z3.BoolSort())
+C0 = z3.Function("slot.c", I, z3.RealSort())
+B0 = z3.Function("slot.inbasis", I, z3.BoolSort())
 
 
-def string_to_node_contract(allow_eval=True):
+def _blocks(fnode):
+    """[(k, [assign i = k, try])] in source order (slot 0 sits inside `if allow_eval:`)"""
+    out = []
+
+    def scan(body):
+        for a, b in zip(body, body[1:]):
+            if isinstance(a, ast.Assign) and isinstance(a.targets[0], ast.Name) and a.targets[0].id == "i" and isinstance(a.value, ast.Constant) and isinstance(b, ast.Try):
+                out.append((a.value.value, [a, b]))
+        for s in body:
+            if isinstance(s, ast.If):
+                scan(s.body)
+    scan(fnode.body)
+    return out
+
+
+def _fnt(v):
+    if isinstance(v, VMaybeNone):
+        v = v.val
+    if not isinstance(v, VFn):
+        raise Unsupported("an opaque object is expected here: %r" % (v,))
+    return v.t
+
+
+def _mk_state(eng, st):
+    """the four parallel slots at the entry of a region"""
+    expr = st.alloc(HSeq(z3.IntVal(4), lambda k: VMaybeNone(ENONE(k), VFn(E0(k))), etype=T.opt(T.fn)))
+    nodes = st.alloc(HSeq(z3.IntVal(4), lambda k: VMaybeNone(NNONE(k), VFn(N0(k))), etype=T.opt(T.fn)))
+    c = st.alloc(HSeq(z3.IntVal(4), lambda k: VFloat(C0(k), nan=C0NAN(k)), numpy=True, etype=T.float))
+    aib = st.alloc(HSeq(z3.IntVal(4), lambda k: VBool(B0(k)), etype=T.bool))
+    return expr, nodes, c, aib
+
+
+def _models(eng):
+    def m_string_to_expr(e, s, a, kw, node):
+        # whichever way the block parses the string (the kern / evaluate flags are not part of the contract: any reading that denotes the formula will do),
+        # the result is "the reading of the current slot"
+        iv = s.env.get("i")
+        if not (isinstance(iv, VInt) and z3.is_int_value(z3.simplify(iv.t))):
+            raise Unsupported("string_to_expr is called with the slot index `i` a literal")
+        return VFn(READ(z3.simplify(iv.t)))
+    eng.models["string_to_expr"] = m_string_to_expr
+    eng.models["DecoratedNode"] = lambda e, s, a, kw, node: VFn(NODE(_fnt(a[0])))
+    eng.models["check_operators"] = lambda e, s, a, kw, node: VBool(INB(_fnt(a[0])))
+    eng.methods["count_nodes"] = lambda e, s, recv, a, kw, node: VInt(COUNT(_fnt(recv)))
+    eng.methods["evalf"] = lambda e, s, recv, a, kw, node: VFn(EVALF(_fnt(recv)))
+    f_ = z3.Const("f!ax", Fn)
+    eng.axioms.append(z3.ForAll([f_], COUNT(f_) >= 1, patterns=[COUNT(f_)]))
+
+
+def consistent(k, e, nd, c, aib, evalf, check_ops):
+    """slot k after its block: NaN, or the reading with its tree, its count and its basis flag"""
+    want = z3.If(evalf, EVALF(READ(k)), READ(k))
+    ok_e, te = e
+    ok_n, tn = nd
+    return z3.Or(z3.And(c.nan, z3.Not(aib)),
+                 z3.And(z3.Not(c.nan), z3.Not(c.inf), ok_e, ok_n, te == want, tn == NODE(te), c.val == z3.ToReal(COUNT(tn)), z3.ToInt(c.val) == COUNT(tn),
+                        z3.If(check_ops, aib == INB(tn), z3.Not(aib))))
+
+
+def _opt(v):
+    if isinstance(v, VFn):
+        return z3.BoolVal(True), v.t
+    if isinstance(v, VMaybeNone) and isinstance(v.val, VFn):
+        return z3.Not(v.isnone), v.val.t
+    if isinstance(v, VNone):
+        return z3.BoolVal(False), z3.Const("none!fn", Fn)
+    raise Unsupported("slot entry %r" % (v,))
+
+
+def block_contract(k):
+    def region(fnode):
+        for kk, stmts in _blocks(fnode):
+            if kk == k:
+                return stmts
+        return None
+
     def setup(eng, st, args):
+        _models(eng)
         eng.may_raise_calls = {"string_to_expr", "DecoratedNode", "count_nodes", "check_operators", "evalf"}
-        st.ghost["reading_no"] = 0
 
-        def m_string_to_expr(e, s, a, kw, node):
-            kern, ev = kw.get("kern"), kw.get("evaluate")
-            if not (isinstance(kern, VBool) and isinstance(ev, VBool) and z3.is_true(z3.simplify(kern.t)) | z3.is_false(z3.simplify(kern.t))):
-                raise Unsupported("string_to_expr is called with literal kern= / evaluate= flags")
-            k_, e_ = z3.is_true(z3.simplify(kern.t)), z3.is_true(z3.simplify(ev.t))
-            idx = {(False, True): 0, (False, False): 1, (True, True): 2, (True, False): 3}[(k_, e_)]
-            return VFn(EXPR(z3.IntVal(idx), z3.BoolVal(False)))
-        def fnt(v):
-            if isinstance(v, VMaybeNone):
-                v = v.val
-            if not isinstance(v, VFn):
-                raise Unsupported("an opaque object is expected here: %r" % (v,))
-            return v.t
-        eng.models["string_to_expr"] = m_string_to_expr
-        eng.models["DecoratedNode"] = lambda e, s, a, kw, node: VFn(NODE(fnt(a[0])))
-        eng.models["check_operators"] = lambda e, s, a, kw, node: VBool(INB(fnt(a[0])))
-        eng.methods["count_nodes"] = lambda e, s, recv, a, kw, node: VInt(COUNT(fnt(recv)))
-        eng.methods["evalf"] = lambda e, s, recv, a, kw, node: VFn(z3.Function("evalf", Fn, Fn)(fnt(recv)))
-        c_, f_ = z3.Int("c!ax"), z3.Const("f!ax", Fn)
-        eng.axioms.append(z3.ForAll([f_], COUNT(f_) >= 1, patterns=[COUNT(f_)]))
+    def ensures(S, a, res):
+        st = S.st
+        ex, nd, c, ab = (S.seq(S.var(n)) for n in ("expr", "nodes", "c", "all_in_basis"))
+        evf, cho = S.b(a["evalf"]), S.b(a["check_ops"])
+        kz = z3.IntVal(k)
+        out = [("slot %d is consistent after its block: NaN count, or reading %d with its own tree, node count and basis flag" % (k, k),
+                consistent(kz, _opt(ex.get(kz)), _opt(nd.get(kz)), as_float(c.get(kz)), S.b(ab.get(kz)), evf, cho))]
+        for q in range(4):
+            if q == k:
+                continue
+            qz = z3.IntVal(q)
+            oe, te = _opt(ex.get(qz))
+            on, tn = _opt(nd.get(qz))
+            cq = as_float(c.get(qz))
+            out.append(("slot %d is untouched by the block of slot %d" % (q, k),
+                        z3.And(oe == z3.Not(ENONE(qz)), z3.Implies(oe, te == E0(qz)), on == z3.Not(NNONE(qz)), z3.Implies(on, tn == N0(qz)),
+                               cq.nan == C0NAN(qz), z3.Implies(z3.Not(cq.nan), cq.val == C0(qz)), S.b(ab.get(qz)) == B0(qz))))
+        return out
+
+    def mk(which):
+        return lambda eng, st: st.ghost.setdefault("__slots", _mk_state(eng, st))[which]
+    c = Contract("string_to_node", {"expr": mk(0), "nodes": mk(1), "c": mk(2), "all_in_basis": mk(3), "s": T.label, "basis_functions": T.fn, "locs": T.fn,
+                                    "evalf": T.bool, "check_ops": T.bool},
+                 requires=lambda S, a: [("the basis flag of the slot is still False when its block starts (prologue)", z3.Not(B0(z3.IntVal(k))))],
+                 ensures=ensures, setup=setup, region=region, raises=lambda S, a, e: z3.BoolVal(False))
+    c.region_name = "reading %d" % k
+    return c
+
+
+def tail_contract():
+    def region(fnode):
+        for k, s in enumerate(fnode.body):
+            if isinstance(s, ast.If) and "all_in_basis" in ast.dump(s.test) and isinstance(fnode.body[-1], ast.Return):
+                return fnode.body[k:]
+        return None
+
+    def setup(eng, st, args):
+        _models(eng)
+
+    def requires(S, a):
+        evf, cho = S.b(a["evalf"]), S.b(a["check_ops"])
+        pre = []
+        for q in range(4):
+            qz = z3.IntVal(q)
+            pre.append(consistent(qz, (z3.Not(ENONE(qz)), E0(qz)), (z3.Not(NNONE(qz)), N0(qz)), VFloat(C0(qz), nan=C0NAN(qz)), B0(qz), evf, cho))
+        return [("the four slots are consistent (postconditions of the four blocks) and at least one reading converted",
+                 z3.And(z3.And(*pre), z3.Or(*[z3.Not(C0NAN(z3.IntVal(q))) for q in range(4)])))]
 
     def ensures(S, a, res):
         if not (isinstance(res, VTuple) and len(res.items) == 3):
             return [("returns (expression, tree, complexity)", z3.BoolVal(False))]
         ex, nd, cx = res.items
-
-        def fn_term(v):
-            if isinstance(v, VFn):
-                return z3.BoolVal(True), v.t
-            if isinstance(v, VMaybeNone) and isinstance(v.val, VFn):
-                return z3.Not(v.isnone), v.val.t
-            return z3.BoolVal(False), z3.Const("none!fn", Fn)
-        okx, tx = fn_term(ex)
-        okn, tn = fn_term(nd)
+        okx, tx = _opt(ex)
+        okn, tn = _opt(nd)
         if not isinstance(cx, VInt):
             return [("the complexity returned is an integer", z3.BoolVal(False))]
-        evf = S.b(a["evalf"])
-        EV = z3.Function("evalf", Fn, Fn)
-        rd = lambda i: z3.If(evf, EV(EXPR(z3.IntVal(i), z3.BoolVal(False))), EXPR(z3.IntVal(i), z3.BoolVal(False)))
-        same_reading = z3.Or(*[z3.And(tx == rd(i), z3.BoolVal(i > 0 or allow_eval)) for i in range(4)])
-        out = [("a reading that did not raise is returned: expression and tree are objects, not None", z3.And(okx, okn)),
-               ("the tree returned is the tree of the expression returned, and the expression is one of the readings%s" % ("" if allow_eval else " 1..3 (reading 0 is switched off)"),
-                z3.And(tn == NODE(tx), same_reading)),
-               ("the complexity returned is the node count of the tree returned", cx.t == COUNT(tn))]
-        # minimality among the readings that were converted without an exception is stated through the ghost record of the counts
+        cho = S.b(a["check_ops"])
+        anyb = z3.Or(*[z3.And(z3.Not(C0NAN(z3.IntVal(q))), B0(z3.IntVal(q))) for q in range(4)])
+        j = z3.Int(fresh_name("j!sk"))
+        slot = z3.Or(*[z3.And(z3.Not(C0NAN(z3.IntVal(q))), tx == E0(z3.IntVal(q)), tn == N0(z3.IntVal(q)), z3.ToReal(cx.t) == C0(z3.IntVal(q)),
+                              z3.Implies(z3.And(cho, anyb), B0(z3.IntVal(q)))) for q in range(4)])
+        adm = lambda q: z3.And(z3.Not(C0NAN(q)), z3.Implies(z3.And(cho, anyb), B0(q)))
+        iv = S.var("i")
+        per_slot = []
+        if isinstance(iv, VInt):
+            # the same clause split by the value of the selected index (helps the solver: one small query per slot)
+            per_slot.append(("the selected index is one of the four slots", z3.And(0 <= iv.t, iv.t < 4)))
+            for q in range(4):
+                qz = z3.IntVal(q)
+                per_slot.append(("if slot %d is selected: it converted, and expression, tree and complexity returned are its own (with check_ops: it uses basis operators only if some slot does)" % q,
+                                 z3.Implies(iv.t == q, z3.And(z3.Not(C0NAN(qz)), tx == E0(qz), tn == N0(qz), z3.ToReal(cx.t) == C0(qz), z3.Implies(z3.And(cho, anyb), B0(qz))))))
+        else:
+            per_slot.append(("expression, tree and complexity returned belong to ONE slot that converted (and, with check_ops, uses basis operators only if some slot does)", slot))
+        return [("expression and tree returned are objects (a reading that raised is never returned)", z3.And(okx, okn))] + per_slot + [
+                ("the complexity returned is the node count the returned tree reported", cx.t == COUNT(tn)),
+                ("no admissible slot has fewer nodes", z3.Implies(z3.And(0 <= j, j < 4, adm(j)), z3.ToReal(cx.t) <= C0(j)))]
+
+    def mk(which):
+        return lambda eng, st: st.ghost.setdefault("__slots", _mk_state(eng, st))[which]
+    c = Contract("string_to_node", {"expr": mk(0), "nodes": mk(1), "c": mk(2), "all_in_basis": mk(3), "evalf": T.bool, "check_ops": T.bool},
+                 requires=requires, ensures=ensures, setup=setup, region=region, raises=lambda S, a, e: z3.BoolVal(False))
+    c.region_name = "selection"
+    return c
+
+
+def prologue_contract():
+    """before the first block: no expression, no tree, every count NaN, every basis flag False (so a slot whose block is skipped -- allow_eval=False -- or raises is
+    never admissible)"""
+    def region(fnode):
+        a = b = None
+        for k, s in enumerate(fnode.body):
+            if a is None and isinstance(s, ast.Assign) and ast.unparse(s.targets[0]) == "expr":
+                a = k
+            if isinstance(s, ast.Assign) and ast.unparse(s.targets[0]) == "c" and a is not None:
+                b = k
+                break
+        return fnode.body[a:b + 1] if a is not None and b is not None else None
+
+    def ensures(S, a, res):
+        out = []
+        ex, nd, c = (S.seq(S.var(n)) for n in ("expr", "nodes", "c"))
+        out.append(("four slots", z3.And(ex.len == 4, nd.len == 4, c.len == 4)))
+        for q in range(4):
+            qz = z3.IntVal(q)
+            oe, _ = _opt(ex.get(qz))
+            on, _ = _opt(nd.get(qz))
+            out.append(("slot %d starts empty: no expression, no tree, NaN count" % q, z3.And(z3.Not(oe), z3.Not(on), as_float(c.get(qz)).nan)))
+        if "all_in_basis" in S.st.env:
+            ab = S.seq(S.var("all_in_basis"))
+            out.append(("with check_ops every basis flag starts False", z3.And(ab.len == 4, *[z3.Not(S.b(ab.get(z3.IntVal(q)))) for q in range(4)])))
+        else:
+            out.append(("with check_ops the basis flags exist", z3.Not(S.b(a["check_ops"]))))
         return out
 
-    c = Contract("string_to_node", {"s": T.label, "basis_functions": T.fn, "locs": (T.fn, VNone()), "evalf": (T.bool, VBool(False)),
-                                    "allow_eval": lambda e, s: VBool(allow_eval), "check_ops": (T.bool, VBool(False))},
-                 ensures=ensures, setup=setup, raises=lambda S, a, e: z3.BoolVal(e == "ValueError"), may_raise=("ValueError",))
+    c = Contract("string_to_node", {"check_ops": T.bool}, ensures=ensures, region=region, raises=lambda S, a, e: z3.BoolVal(False))
+    c.region_name = "prologue"
     return c
